@@ -755,6 +755,66 @@ def oracle_conditional(chk, quick):
                      {"variant": variant, "size": size, "par": par, "px": px, "r0": r0, "L0": L0, "kind": "conditional"})
 
 
+def oracle_seed_ensemble(chk, quick):
+    """b is independent of the old phase Z — over an ENSEMBLE of integer seeds (the way callers seed screens): for each seed a fresh
+    screen and size+1 add_row steps; at each step the innovation actually used b̂ = B⁺(row − A·Z) (Fried: relative to the reference
+    pixel) and the correlation of every component of b̂ with every pixel of the screen as it was before that step, across the ensemble.  If the numbers that shaped the initial
+    screen come back as innovations (one seed used for two generators, a generator rewound …) Cov(X,Z) = A·Σzz + B·Cov(b,Z) is no
+    longer the theoretical one and the joint statistics do not stay stationary.  Under independence a sample correlation over n
+    seeds is ≈ N(0, 1/n): the threshold is 6.5/√n on the largest of the ~1500 correlations (probability of a false alarm < 2e-7 per
+    run; the draw of seeds is fixed by VERIF_SEED, so a run is repeatable)."""
+    from aotools.turbulence import infinitephasescreen as ips
+    n = 400 if quick else 1500
+    for variant, size, par, px, r0, L0 in (("vk", 6, 2, 0.2, 0.2, 20.), ("fried", 5, 1, 0.25, 0.15, 30.)):
+        base = chk.rng.randrange(1, 2 ** 30)
+        bs, zs = [], []
+        tag = "%s(%d, %r, %r, %r, %s=%d, random_seed=<int>)" % ("PhaseScreenVonKarman" if variant == "vk" else "PhaseScreenKolmogorov", size, px,
+                                                               r0, L0, "n_columns" if variant == "vk" else "stencil_length_factor", par)
+        chk.oracle_cases += 1
+        chk.case(("oracle-seed-ensemble", tag, n))
+        steps = size + 1            # the draws that shaped the low frequencies of the initial screen come back after about size/2 rows
+        bs, zs = [[] for _ in range(steps)], [[] for _ in range(steps)]
+        for k in range(n):
+            seed = base + 7919 * k
+            if variant == "vk":
+                obj = ips.PhaseScreenVonKarman(size, px, r0, L0, random_seed=seed, n_columns=par)
+            else:
+                obj = ips.PhaseScreenKolmogorov(size, px, r0, L0, random_seed=seed, stencil_length_factor=par)
+            st = numpy.asarray(obj.stencil_coords)
+            A, B = numpy.asarray(obj.A_mat, dtype=float), numpy.asarray(obj.B_mat, dtype=float)
+            Bp = numpy.linalg.pinv(B)
+            for step in range(steps):
+                old = numpy.array(obj._scrn, dtype=float, copy=True)
+                Z = old[st[:, 0], st[:, 1]]
+                obj.add_row()
+                row = numpy.array(obj._scrn[0], dtype=float, copy=True)
+                ref = old[1, 1] if variant == "fried" else 0.0
+                bs[step].append(Bp @ (row - ref - A @ (Z - ref)))
+                zs[step].append(old.ravel() - ref)                    # the WHOLE old screen, not only the stencil
+        worst, where = 0.0, (0, 0, 0)
+        for step in range(steps):
+            b_, z_ = numpy.array(bs[step]), numpy.array(zs[step])
+            keep_b = b_.std(0) > 1e-6                  # directions B does not excite carry no innovation
+            keep_z = z_.std(0) > 1e-12                 # the Fried reference pixel itself is identically 0 after referencing
+            bn = (b_[:, keep_b] - b_[:, keep_b].mean(0)) / b_[:, keep_b].std(0)
+            zn = (z_[:, keep_z] - z_[:, keep_z].mean(0)) / z_[:, keep_z].std(0)
+            corr = bn.T @ zn / n
+            if float(numpy.abs(corr).max()) > worst:
+                worst = float(numpy.abs(corr).max())
+                i, j = numpy.unravel_index(int(numpy.argmax(numpy.abs(corr))), corr.shape)
+                where = (step, int(i), int(j))
+        thr = 6.5 / math.sqrt(n)
+        chk.margins["seed-ensemble:max|corr|·sqrt(n)"] = max(chk.margins.get("seed-ensemble:max|corr|·sqrt(n)", 0.0), worst * math.sqrt(n))
+        chk.count("oracle:seed-ensemble:" + variant)
+        if not worst <= thr:
+            chk.fail("innovation:independent-of-old-phase:" + variant, "%s: over %d integer seeds (%d, %d, …) the innovation actually used by "
+                     "add_row number %d, b̂ = B⁺(row − A·Z), is correlated with the phase already on the screen: largest |corr(b̂_%d, "
+                     "old pixel %d)| = %.3f (%.1f standard errors; independent draws give < %.3f)"
+                     % (tag, n, base, base + 7919, where[0] + 1, where[1], where[2], worst, worst * math.sqrt(n), thr),
+                     {"variant": variant, "size": size, "par": par, "px": px, "r0": r0, "L0": L0, "kind": "seed-ensemble", "first_seed": base,
+                      "stride": 7919, "n": n, "step": where[0] + 1})
+
+
 def oracle_sequence(chk, rng, max_size):
     """several screens with the SAME class, grid, pixel scale and L0 but different r0 (and then the first r0 again) built one
     after the other in this process: the identities must hold on each (nothing learnt from one screen may be reused wrongly
@@ -892,6 +952,7 @@ def run(chk):
     if chk.oracle_cases < n_or // 2:
         raise RuntimeError("only %d of %d oracle configurations were in the domain: the check would pass vacuously" % (chk.oracle_cases, n_or))
     oracle_conditional(chk, quick)
+    oracle_seed_ensemble(chk, quick)
     for _ in range(4 if quick else 40):
         oracle_sequence(chk, chk.rng, 16 if quick else 33)
     for _ in range(10 if quick else 120):
